@@ -1072,8 +1072,8 @@ def _frame_job(v):
     if v in _G["frame_over_versions"]:
         for shape in ("Square", "Circle"):
             for m in (0, 1, 4):
-                for size in (None, 3.0, 4.5, 10.0):
-                    for gap in (None, 0.0, 1.0, 2.5):
+                for size in (None, 3.0, 4.5, 8.25, 10.0):
+                    for gap in (None, 0.0, 1.0, 2.5, 0.3):
                         for pos in (None, (n / 2.0 + m, n / 2.0 + m), (10.25 + m, 7.5 + m), (float(m + 12), float(m + 9))):
                             if size is None and gap is None and pos is None:
                                 continue
@@ -1164,6 +1164,11 @@ def c18_r2(ctx, f, rid="C18.R2"):
                     bad.append(("gap-not-honoured", "%s (or one less after alignment)" % want, w))
             if pos is not None and (abs(x + w / 2 - pos[0]) > eps or abs(y + h / 2 - pos[1]) > eps):
                 bad.append(("not-centred-on-position", pos, (x + w / 2, y + h / 2)))
+            if pos is None:
+                # no position requested: the default placement applies, the frame is centred on the symbol
+                tot = (ref.side(v) + 2 * m) / 2.0
+                if abs(x + w / 2 - tot) > eps or abs(y + h / 2 - tot) > eps:
+                    bad.append(("not-centred-on-symbol", (tot, tot), (x + w / 2, y + h / 2)))
             if abs(ix + iw / 2 - (x + w / 2)) > 0.005 + eps or abs(iy + ih / 2 - (y + h / 2)) > 0.005 + eps:
                 bad.append(("image-not-centred-in-frame", (x + w / 2, y + h / 2), (ix + iw / 2, iy + ih / 2)))
             if abs(w - h) > eps or abs(iw - ih) > eps:
